@@ -121,6 +121,13 @@ Definition placed (room_id : Z) (admins : list event) (edges : list sedge) (x : 
                     (if Z.eqb (s_kind x) 5 then admin_at admins (Z.to_N (se_author e)) (se_date e)
                      else Z.eqb (se_author e) (s_author x))) edges.
 
+(* a reference from that room / group, under the field of the list, points to the entry - whoever signed it
+   (what check_placed of cd32c02 enforces on every row of a candidate) *)
+Definition placed_field (room_id : Z) (edges : list sedge) (x : sent) : bool :=
+  existsb (fun e => Z.eqb (se_kind e) (s_kind x) && Z.eqb (se_g e) (s_g x) &&
+                    Z.eqb (se_src e) (container room_id x) && Z.eqb (se_dest e) (s_id x) &&
+                    Z.eqb (se_label e) (label_of (s_kind x))) edges.
+
 (* administrators justify one another in date order; [base] are the entries that need no
    justification (the ones the peer already holds / the creator's own entries of a new room) *)
 Fixpoint admins_justified (acc : list event) (is_base : sent -> bool) (l : list sent) : bool :=
@@ -248,30 +255,27 @@ Definition spec_C07 (c : c07case) (obs : list Z) : bool :=
 Definition case_old (c : c07case) := match c with CPrep o _ _ | CE2E o _ _ => o end.
 Definition case_cand (c : c07case) := match c with CPrep _ n _ | CE2E _ n _ => n end.
 
-Fixpoint has_dup_place (l : list sent) : bool :=
-  match l with
-  | [] => false
-  | x :: tl => (negb (Z.eqb (s_kind x) 5) && existsb (same_place x) tl) || has_dup_place tl
-  end.
-
-(* class 1: a new entry of the candidate has no reference of its own author, from this room /
-            group, under the field of the list it is put in (references are only signature-checked)
+(* class 1: a new entry of the candidate IS referenced from this room / group under the field of the
+            list it is put in, but by no reference of its own author (for a group row: of a key that
+            was administrator at the reference's date): the signer of a placing reference is not
+            looked at (self-signed or foreign-signed reference under the right field).  The other
+            variants of the former class 1 (no reference at all, reference of another field) are
+            refused since cd32c02 and are no part of the class any more.
    class 2: a room never seen before whose administrator entries do not justify one another in
             date order from the creator's own entries (prepare_new_room asks the fully parsed
             candidate, which already contains the entry that is being judged)
-   class 3: (repaired by 85b1827: prepare_new_auth now checks the user-admin entries of a group new
-            to the peer against the room's administrators; no longer a class)
-   class 4: a list of the candidate holds two rows with the same id (only the first is compared
-            with the stored row; the others count as "already known" and are not checked) *)
+   class 3: repaired by 85b1827 (user-admin entries of a group new to the peer), no class any more
+   class 4: repaired by cd32c02 (two rows with one id in a list), no class any more *)
 Definition known_C07 (c : c07case) : list Z :=
   let old := case_old c in let cand := case_cand c in
   let olds := old_sents old in
   let res := union_sents olds (sents_of cand) in
   let edges := union_sedges (old_sedges old) (sedges_of cand) in
   let news := new_entries olds (sents_of cand) in
-  (if existsb (fun x => needs_place olds x && negb (placed (zn (rmn_id cand)) (evs_of (of_kind 1 res)) edges x)) news then [1] else []) ++
-  (if is_fresh old && negb (admins_ok true (rmn_cdate cand) [] (sents_of cand)) then [2] else []) ++
-  (if has_dup_place (sents_of cand) then [4] else []).
+  let rid := zn (rmn_id cand) in
+  (if existsb (fun x => needs_place olds x && placed_field rid edges x &&
+                        negb (placed rid (evs_of (of_kind 1 res)) edges x)) news then [1] else []) ++
+  (if is_fresh old && negb (admins_ok true (rmn_cdate cand) [] (sents_of cand)) then [2] else []).
 
 Definition eval_C07 (c : c07case) (obs : list Z) : list Z :=
   [zb (zlist_eqb (run_C07 c) obs); zb (spec_C07 c obs)] ++ known_C07 c.
